@@ -213,12 +213,22 @@ _Quantity = pvl.collections.Quantity
 _Empty = pvl.parser.EmptyValueAtLine
 
 
+def class_tag(v):
+    """Container class name; a user's subclass counts as its library base
+    (the parsers accept module_class/group_class/object_class)."""
+    for base in (pvl.collections.PVLGroup, pvl.collections.PVLObject,
+                 pvl.collections.PVLModule):
+        if isinstance(v, base):
+            return base.__name__
+    return type(v).__name__
+
+
 def canon(v, _d=0):
     """Type-exact canonical form (nested tuples, JSON-able after listify)."""
     if _d > 24:
         return ("too-deep-or-cyclic",)
     if isinstance(v, _OMD):
-        return (type(v).__name__,
+        return (class_tag(v),
                 tuple((k, canon(x, _d + 1)) for k, x in list(v)))
     if isinstance(v, _Quantity):
         return ("Quantity", canon(v.value, _d + 1), ("str", str(v.units)))
